@@ -7,10 +7,13 @@ import (
 	"crypto/ed25519"
 	"crypto/rand"
 	"fmt"
+	"os"
 	"time"
 
 	"hop.computer/hop/authkeys"
 	"hop.computer/hop/certs"
+	"hop.computer/hop/config"
+	"hop.computer/hop/hopserver"
 	"hop.computer/hop/keys"
 	"hop.computer/hop/transport"
 )
@@ -177,3 +180,93 @@ func NewKEM() *keys.KEMKeyPair {
 
 // String describes an identity.
 func (i *Ident) String() string { return fmt.Sprintf("%s(owns=%v)", i.Class, i.Owns) }
+
+// PolicyViaConfigFile builds the same server-side policy as Policy(kind, "") the way hopd does: the administrator's
+// configuration file is written to disk (switches that are off are rendered as "= false" or left out, by variant),
+// read by config.LoadServerConfigFromFile, turned into a transport configuration by hopserver.NewHopServer, and the
+// ClientVerify of THAT configuration is returned (authorized keys are then added to its key set).
+func (p *PKI) PolicyViaConfigFile(kind string, variant int, authorized ...keys.DHPublicKey) (*transport.VerifyConfig, error) {
+	dir, err := os.MkdirTemp("", "vf-srvcfg-")
+	if err != nil {
+		return nil, err
+	}
+	defer os.RemoveAll(dir)
+	kp := keys.GenerateNewX25519KeyPair()
+	leaf, err := certs.SelfSignLeaf(&certs.Identity{PublicKey: kp.Public, Names: []certs.Name{certs.DNSName("cfg.example")}})
+	if err != nil {
+		return nil, err
+	}
+	lb, err := certs.EncodeCertificateToPEM(leaf)
+	if err != nil {
+		return nil, err
+	}
+	rb, err := certs.EncodeCertificateToPEM(p.TRoot)
+	if err != nil {
+		return nil, err
+	}
+	os.WriteFile(dir+"/id.pem", []byte(kp.Private.String()), 0600)
+	os.WriteFile(dir+"/id.cert", lb, 0600)
+	os.WriteFile(dir+"/root.cert", rb, 0600)
+	txt := fmt.Sprintf("ListenAddress = \"127.0.0.1:0\"\nKey = %q\nCertificate = %q\n", dir+"/id.pem", dir+"/id.cert")
+	sw := func(name string, on bool) {
+		switch {
+		case on:
+			txt += name + " = true\n"
+		case variant%2 == 0:
+			txt += name + " = false\n"
+		}
+	}
+	switch kind {
+	case "store":
+		txt += fmt.Sprintf("CAFiles = [%q]\n", dir+"/root.cert")
+		sw("InsecureSkipVerify", false)
+		sw("DisableCertificateValidation", false)
+		sw("EnableAuthorizedKeys", false)
+	case "skip":
+		sw("InsecureSkipVerify", true)
+		sw("EnableAuthorizedKeys", false)
+	case "authkeys":
+		sw("InsecureSkipVerify", false)
+		sw("DisableCertificateValidation", true)
+		sw("EnableAuthorizedKeys", true)
+	case "both":
+		txt += fmt.Sprintf("CAFiles = [%q]\n", dir+"/root.cert")
+		sw("InsecureSkipVerify", false)
+		sw("DisableCertificateValidation", false)
+		sw("EnableAuthorizedKeys", true)
+	default:
+		return nil, fmt.Errorf("unknown policy %s", kind)
+	}
+	sw("EnableAuthgrants", false)
+	if err := os.WriteFile(dir+"/config.toml", []byte(txt), 0600); err != nil {
+		return nil, err
+	}
+	sc, err := config.LoadServerConfigFromFile(dir + "/config.toml")
+	if err != nil {
+		return nil, err
+	}
+	hs, err := hopserver.NewHopServer(sc)
+	if err != nil || hs.Server == nil {
+		return nil, fmt.Errorf("NewHopServer: %v", err)
+	}
+	vc := hs.Server.VerifConfig().ClientVerify
+	hs.Server.Close()
+	if vc == nil {
+		return nil, fmt.Errorf("no ClientVerify derived")
+	}
+	if vc.AuthKeys != nil {
+		for _, k := range authorized {
+			vc.AuthKeys.AddKey(k)
+		}
+	}
+	return vc, nil
+}
+
+// IssueShortLived makes a valid chain under the trusted root whose leaf expires `life` from now (whole seconds).
+func (p *PKI) IssueShortLived(name string, life time.Duration) *Ident {
+	k := keys.GenerateNewX25519KeyPair()
+	now := time.Now()
+	exp := now.Add(life).Truncate(time.Second).Add(time.Second)
+	leaf := forge(certs.Leaf, now.Add(-time.Minute), exp, []certs.Name{certs.DNSName(name)}, k.Public, p.TInter.Fingerprint, p.TInterKey)
+	return &Ident{Class: "short-lived", Leaf: leaf, Inter: p.TInter, Key: k, Owns: true}
+}
